@@ -5,12 +5,16 @@ from checks.bbi_family import *
 def main():
     run = Run("C08")
     cfgs = ["MC_BigBed_z_t1.cfg", "MC_BigBed_z_t2.cfg"] if run.thorough else ["MC_BigBed_z_q1.cfg", "MC_BigBed_z_q2.cfg"]
-    beh = [b for b in emit(run, "MC_BigBed", cfgs) if b["zooms"]]
     sizes = lambda b: [b["L"]] * b["NC"]
-    cases = make_cases(beh, "bb", sizes, run, zq=1)
-    emb = make_cases(beh[::5], "bb", sizes, run, zq=0)
-    for k, c in enumerate(emb):
-        c["scale"] = [7, 1000, 65536][k % 3]
+
+    def build(beh, k0):
+        beh = [b for b in beh if b["zooms"]]
+        cases = make_cases(beh, "bb", sizes, run, zq=1, k0=k0)
+        # the same layouts under an affine embedding of positions (resolutions scale with it: exact)
+        emb = make_cases(beh[::5], "bb", sizes, run, zq=0, k0=k0)
+        for k, c in enumerate(emb):
+            c["scale"] = [7, 1000, 65536][k % 3]
+        return cases + emb
     # automatic zoom ladders need inputs large enough for a level to be kept (levels are pruned by size):
     # longer seeded inputs, small items_per_slot, initial zoom size 10 or 160, single and two pass
     import random as _r
@@ -38,7 +42,8 @@ def main():
         its = o["items"]
         return any(its[i][0] == its[j][0] and its[i][2] > its[j][1] and its[i][1] < its[j][2] for i in range(len(its)) for j in range(i + 1, len(its)))
     desc = lambda o: {k: o["obs"].get(k) for k in ("result", "err", "zooms", "zint", "unmapped")}
-    obs = judge(run, "C08", "Obs_BigBed", cases + emb + auto, nt, desc)
+    obs = run_batches(run, "C08", "MC_BigBed", cfgs, "Obs_BigBed", nt, desc, build)
+    obs += judge(run, "C08", "Obs_BigBed", auto, nt, desc)
     autos = [o for o in obs if o["opts"].get("zmode") == "auto"]
     run.cov["automatic_zoom_cases"] = len(autos)
     run.cov["automatic_zoom_levels_kept"] = [len(o["obs"].get("zooms", [])) for o in autos]
